@@ -10,8 +10,8 @@
     The lead-byte table is Go's [first]/[acceptRanges] (RFC 3629 strict: C0/C1/F5..FF invalid; second byte of
     E0 in A0..BF, of ED in 80..9F (no surrogates), of F0 in 90..BF, of F4 in 80..8F (<= U+10FFFF)).
     Tied to Go by the C37 correspondence run (harness/overlay/index/zz_verif_c37_test.go, TestVerifC37Utf8:
-    all 1- and 2-byte strings exhaustively, structured 3/4-byte rows exhaustive in the last byte, random and
-    mutated longer strings; compared: the (rune,width) sequence, Valid, RuneCount, re-encoding).
+    all 1- and 2-byte strings exhaustively (thorough tier: all 3-byte strings too), structured 3/4-byte rows
+    exhaustive in the last byte, random and mutated longer strings; compared: the (rune,width) sequence, Valid, RuneCount, re-encoding).
 
     Theorems (all closed under the global context):
       - [decode_step_app]   decoding a complete encoding does not depend on what follows;
